@@ -164,6 +164,18 @@ def tlc(scratch, module, cfg, env=None, workers=1, timeout=600, heap="3g", extra
     return r
 
 
+def apalache(scratch, module, inv, timeout=900):
+    """Discharge a state invariant over every initial state with Apalache (length 0: Next only stutters)."""
+    out = scratch.sub("apalache_%s_%d" % (module, time.time_ns()))
+    shutil.copy(os.path.join(SPEC, module + ".tla"), out)
+    cmd = ["timeout", str(timeout), "apalache-mc", "check", "--init=Init", "--next=Next", "--inv=" + inv, "--length=0",
+           "--out-dir=" + os.path.join(out, "out"), module + ".tla"]
+    p = subprocess.run(cmd, cwd=out, env=env_with({}), stdout=subprocess.PIPE, stderr=subprocess.STDOUT, text=True)
+    if p.returncode != 0 or "The outcome is: NoError" not in p.stdout:
+        raise Infra("Apalache did not discharge %s of %s (rc=%s):\n%s" % (inv, module, p.returncode, p.stdout[-2000:]))
+    return {"module": module + ".tla", "invariant": inv, "outcome": "NoError", "scope": "every instant >= 0 (unbounded integers), quanta 3 / 30 / 100 / 120"}
+
+
 def require_ok(r, what):
     if not r.ok:
         tail = "\n".join([l for l in r.out.splitlines() if not re.match(r"^(Parsing|Semantic|Linting) ", l)][-40:])
